@@ -92,6 +92,38 @@ def r2(cx):
             cx.check(c.bb not in r, "explicit drop of the permit only after publish()", "permit-early-drop", c.where())
 
 
+@rule("C17", "C17.R6", "the semaphore permit is held until the commit's queue slot has been dequeued")
+def r6(cx):
+    """The commit queue has exactly as many slots as the semaphore has permits.  A slot is freed when publish() dequeues the
+    batch, which happens only after every EARLIER batch was applied.  The committer is told so through its oneshot
+    receiver.  If any path of commit() returns (and thereby drops the permit) after enqueue without awaiting that signal --
+    e.g. a failure arm that completes its own batch and returns -- then failed commits behind one slow commit leave occupied
+    slots without permits, and the next admitted commit panics in enqueue ("commit queue overflow")."""
+    b = commit_body(cx)
+    enq = sites(cx, b, "CommitQueue::enqueue")
+    newb = sites(cx, b, "CommitBatch::new")
+    # the receiver half returned by CommitBatch::new
+    polls = []
+    for c in b.calls:
+        if c.bb not in b.live or not c.args or c.args[0][0] not in ("c", "m"):
+            continue
+        if not ("Future>::poll" in c.primary or c.primary.endswith("Future::poll")):
+            continue
+        o = origin_of_operand(b, c.args[0], through_calls=True)
+        if any(x in newb for x in o.calls) and "Receiver" in c.primary:
+            polls.append(c)
+    if not polls:
+        polls = [c for c in b.calls if c.bb in b.live and "oneshot::Receiver" in c.primary and "poll" in c.primary.split("::")[-1]]
+    cx.floor("awaits of the batch's completion receiver in commit()", len(polls), 1)
+    exs = [x for x, k in exits(b)] or b.rets
+    P = {c.bb for c in polls}
+    r = b.reachable_after([enq[0].bb], avoid=P)
+    bad = sorted(x for x in exs if x in r and x not in P)
+    cx.check(not bad, "after enqueue, commit() returns only after its completion (= dequeue) signal was awaited", "permit-released-before-slot-freed", b.where(bad[0]) if bad else enq[0].where(),
+             "commit() can return after enqueue without awaiting the batch's completion signal (%d exit(s), first at %s): the semaphore permit is dropped while the queue slot is "
+             "still occupied behind an earlier, slower commit; a few failing commits then overflow the 8-slot queue and the next commit panics" % (len(bad), b.where(bad[0]) if bad else "-"))
+
+
 def all_guards(f):
     w = lock_wrappers(f)
     res = []
